@@ -15,14 +15,15 @@ import (
 )
 
 type ExploreConfig struct {
-	Workers     int
-	MaxPaths    int
-	MaxSeconds  float64
-	Run         RunConfig
-	SolverCmd   []string
-	WitnessMax  int
-	Seed        int64
-	SolverLog   string
+	Workers    int
+	MaxPaths   int
+	MaxSeconds float64
+	Run        RunConfig
+	SolverCmd  []string
+	WitnessMax int
+	Seed       int64
+	SolverLog  string
+	SingleVec  []int64 // replay exactly this decision vector, nothing else
 }
 
 type Witness struct {
@@ -33,35 +34,35 @@ type Witness struct {
 }
 
 type HarnessResult struct {
-	Harness        string              `json:"harness"`
-	Paths          int                 `json:"paths"`
-	PathsDone      int                 `json:"paths_done"`
-	Aborted        map[string]int      `json:"aborted"`
-	AbortReasons   []string            `json:"abort_reasons"`
-	Decisions      int                 `json:"decisions"`
-	Steps          int                 `json:"steps"`
-	Obligations    int                 `json:"obligations"`
-	Discharged     int                 `json:"discharged"`
-	TrivialOK      int                 `json:"trivial_ok"`
-	Nontrivial     int                 `json:"distinct_nontrivial_paths"`
-	Failures       []*Failure          `json:"failures"`
-	FailureCount   map[string]int      `json:"failure_count"`
-	Inconclusive   []string            `json:"inconclusive"`
-	Reached        map[string]int      `json:"reached"`
-	Funcs          []string            `json:"funcs"`
-	Assumes        []string            `json:"assumes"`
-	Witnesses      []*Witness          `json:"witnesses"`
-	Sat            int                 `json:"sat"`
-	Unsat          int                 `json:"unsat"`
-	Unknown        int                 `json:"unknown"`
-	SolverSeconds  float64             `json:"solver_s"`
-	SolverErrors   []string            `json:"solver_errors"`
-	WallSeconds    float64             `json:"wall_s"`
-	Truncated      bool                `json:"truncated"`
-	EngineErrors   []string            `json:"engine_errors"`
-	UnwindFailures int                 `json:"unwinding_failures"`
-	MapOrderPaths  int                 `json:"map_order_dependent_paths"`
-	UnknownBranches int                `json:"unknown_branches"`
+	Harness         string         `json:"harness"`
+	Paths           int            `json:"paths"`
+	PathsDone       int            `json:"paths_done"`
+	Aborted         map[string]int `json:"aborted"`
+	AbortReasons    []string       `json:"abort_reasons"`
+	Decisions       int            `json:"decisions"`
+	Steps           int            `json:"steps"`
+	Obligations     int            `json:"obligations"`
+	Discharged      int            `json:"discharged"`
+	TrivialOK       int            `json:"trivial_ok"`
+	Nontrivial      int            `json:"distinct_nontrivial_paths"`
+	Failures        []*Failure     `json:"failures"`
+	FailureCount    map[string]int `json:"failure_count"`
+	Inconclusive    []string       `json:"inconclusive"`
+	Reached         map[string]int `json:"reached"`
+	Funcs           []string       `json:"funcs"`
+	Assumes         []string       `json:"assumes"`
+	Witnesses       []*Witness     `json:"witnesses"`
+	Sat             int            `json:"sat"`
+	Unsat           int            `json:"unsat"`
+	Unknown         int            `json:"unknown"`
+	SolverSeconds   float64        `json:"solver_s"`
+	SolverErrors    []string       `json:"solver_errors"`
+	WallSeconds     float64        `json:"wall_s"`
+	Truncated       bool           `json:"truncated"`
+	EngineErrors    []string       `json:"engine_errors"`
+	UnwindFailures  int            `json:"unwinding_failures"`
+	MapOrderPaths   int            `json:"map_order_dependent_paths"`
+	UnknownBranches int            `json:"unknown_branches"`
 }
 
 func newMachine(env *Env, solver *Solver, cfg *RunConfig, vec []int64) *Machine {
@@ -72,9 +73,9 @@ func newMachine(env *Env, solver *Solver, cfg *RunConfig, vec []int64) *Machine 
 		varCount: map[string]int{}, choices: map[string]int64{},
 		initDone: map[*ssa.Package]bool{},
 		pool:     map[*Value][]Value{}, poolVC: map[*Value][]int{},
-		mutexes:  map[*Value]*mutexState{}, wgStates: map[*Value]*wgState{},
-		hashBuf:  map[*Value][]*Term{}, atomVC: map[*Value][]int{},
-		tickers:  map[*Value]*tickerState{}, shadow: map[*Value]*shadow{},
+		mutexes: map[*Value]*mutexState{}, wgStates: map[*Value]*wgState{},
+		hashBuf: map[*Value][]*Term{}, atomVC: map[*Value][]int{},
+		tickers: map[*Value]*tickerState{}, shadow: map[*Value]*shadow{},
 		sched:    make(chan schedEvent),
 		res:      &PathResult{Funcs: map[string]bool{}},
 		maxTicks: 1,
@@ -191,6 +192,9 @@ func Explore(env *Env, harnessName string, cfg *ExploreConfig) *HarnessResult {
 	var mu sync.Mutex
 	cond := sync.NewCond(&mu)
 	queue := [][]int64{{}}
+	if cfg.SingleVec != nil {
+		queue = [][]int64{cfg.SingleVec}
+	}
 	active := 0
 	funcs := map[string]bool{}
 	assumes := map[string]bool{}
@@ -306,7 +310,9 @@ func Explore(env *Env, harnessName string, cfg *ExploreConfig) *HarnessResult {
 				if res.Witness != nil && len(hr.Witnesses) < cfg.WitnessMax {
 					hr.Witnesses = append(hr.Witnesses, &Witness{Vec: res.Vec, Model: res.Witness, Choices: res.WitChoices, Emits: res.EmitEval})
 				}
-				queue = append(queue, res.NewVecs...)
+				if cfg.SingleVec == nil {
+					queue = append(queue, res.NewVecs...)
+				}
 				if hr.Paths >= cfg.MaxPaths || time.Now().After(deadline) {
 					if len(queue) > 0 || active > 0 {
 						hr.Truncated = true
